@@ -1037,16 +1037,100 @@ def r11(R):
     g, b, F = R.cfg(f, bs, max_depth=0)
     R.instance('BaseStorage.tpc_begin')
 
-    def edge(node, st, lab, tgt):
+    def later_test(node, lab):
+        """what a test against the present basis says on this branch:
+        'later' (the new stamp is later, or there is no basis yet),
+        'not-later' (the basis is already at least as late), or None"""
+        def one(e, truth):
+            if not (isinstance(e, ast.Compare) and len(e.ops) == 1):
+                return None
+            l, r, op = e.left, e.comparators[0], e.ops[0]
+            if dotted(l) == ('self', '_ts') and isinstance(
+                    r, ast.Constant) and r.value is None and isinstance(
+                        op, (ast.Is, ast.IsNot)):
+                return 'later' if isinstance(op, ast.Is) == truth else None
+            if isinstance(op, (ast.Gt, ast.GtE, ast.Lt, ast.LtE)):
+                if dotted(r) == ('self', '_ts'):
+                    new_later = isinstance(op, (ast.Gt, ast.GtE)) == truth
+                elif dotted(l) == ('self', '_ts'):
+                    new_later = isinstance(op, (ast.Lt, ast.LtE)) == truth
+                else:
+                    return None
+                return 'later' if new_later else 'not-later'
+            return None
+
+        out = None
+        for e, truth in implied_atoms(node.ast, lab):
+            c = one(e, truth)
+            if c == 'later':
+                out = 'later'
+            elif c == 'not-later':
+                out = out or 'not-later'
+        # a disjunction that holds: whichever disjunct it was
+        t, lb = node.ast, lab
+        while isinstance(t, ast.UnaryOp) and isinstance(t.op, ast.Not):
+            t, lb = t.operand, ('F' if lb == 'T' else 'T')
+        if out is None and isinstance(t, ast.BoolOp):
+            want = (isinstance(t.op, ast.Or) and lb == 'T') or (
+                isinstance(t.op, ast.And) and lb == 'F')
+            if want:
+                cs = {one(strip_not(v)[0] if False else v, lb == 'T')
+                      for v in t.values}
+                if cs == {'later'}:
+                    out = 'later'
+        return out
+
+    def edge(node, st0, lab, tgt):
+        st, guard = st0
+        if node.kind == 'test' and lab in ('T', 'F'):
+            lt = later_test(node, lab)
+            if lt == 'not-later':
+                st = True            # the basis is at least the id already
+            if lt is not None:
+                guard = lt == 'later'
         if lab in ('e', 'eb'):
-            return st
+            return (st, guard)
         for op in F.ops(node):
             if op.kind == 'store' and path_is(op.path, ('self', '_ts')):
                 st = True
-        return st
+        return (st, guard)
 
-    def at(node, st):
+    def at(node, st0):
+        st, guard = st0
         for op in F.ops(node):
+            if op.kind == 'store' and path_is(op.path, ('self', '_ts')):
+                v = store_value(op)
+                monotone = v is not None and any(
+                    isinstance(c, ast.Call) and dotted(c.func) and
+                    dotted(c.func)[-1] in ('laterThan', 'max')
+                    for c in ast.walk(v))
+                pv = provenance(v, node.frame, F) if v is not None \
+                    else set()
+                if not monotone and any(
+                        k_ == 'call' and v_[-1] in ('laterThan', 'max')
+                        for k_, v_ in pv):
+                    monotone = True      # `t = t.laterThan(...)` first
+                if not monotone and v is not None:
+                    params = [p_ for p_ in f.params[2:3]]   # the id
+                    if params and ('param', params[0]) not in pv:
+                        return Violation(
+                            'BaseStorage.tpc_begin sets the basis of the '
+                            'following ids from `%s`, which is not the id '
+                            'the caller supplied (the id of the PREVIOUS '
+                            'transaction, say): after transactions copied '
+                            'in with ids ahead of the clock the next '
+                            'ordinary commit gets an id below them' %
+                            ' '.join(ast.unparse(v).split())[:40])
+                if not monotone and not guard:
+                    return Violation(
+                        'BaseStorage.tpc_begin sets the basis of the '
+                        'following ids (`%s`) without holding the new value '
+                        'against the present one: a begin with an id from '
+                        'the past -- aborted, or a copy out of order -- '
+                        'moves the basis BACK; when the last committed id '
+                        'is ahead of the clock the next ordinary commit '
+                        'gets an id below it' %
+                        ' '.join(ast.unparse(op.stmt).split())[:50])
             if op.kind == 'store' and path_is(op.path, ('self', '_tid')) \
                     and not st:
                 return Violation(
@@ -1056,13 +1140,14 @@ def r11(R):
                     'ahead of the clock, the next ordinary commit gets an '
                     'id BELOW them (FileStorage has its own tpc_finish: a '
                     'basis set there by the base class is never set)')
-        return st
+        return st0
 
-    vs, stats = explore(g, False, at=at, edge=edge)
+    vs, stats = explore(g, (False, False), at=at, edge=edge)
     R.count(stats)
     for v in vs[:1]:
         R.violation(v.node, v.message, g, v.path,
-                    key='id adopted without becoming the basis')
+                    key='basis of the ids moved back' if 'BACK' in v.message
+                    else 'id adopted without becoming the basis')
     # (b) MappingStorage.tpc_begin: the last id is read under the commit lock
     ms = R.prog.cls(MS)
     f2 = R.method(ms, 'tpc_begin')
